@@ -340,6 +340,18 @@ fn c06_accessors(rep: &mut Report, r: &mut Rng, n: u64) {
                 p.add_option(CoapOption::Observe, vec![]);
             }
             p.set_observe_value(a);
+            if a % 2 == 0 {
+                // the option already spells the number about to be set, but padded and followed by more values
+                p.clear_option(CoapOption::Observe);
+                let mut padded = vec![0u8];
+                padded.extend_from_slice(&min_be(b as u64));
+                if padded.len() <= 4 {
+                    p.add_option(CoapOption::Observe, padded);
+                } else {
+                    p.add_option(CoapOption::Observe, min_be(b as u64));
+                }
+                p.add_option(CoapOption::Observe, vec![3]);
+            }
             p.set_observe_value(b);
             (before.is_none(), p.get_observe_value().map(|x| x.map_err(|_| ())), p.get_option(CoapOption::Observe).map(|l| l.iter().cloned().collect::<Vec<_>>()))
         });
